@@ -214,6 +214,23 @@ func (o *runObs) ExitSignal() bool {
 	return false
 }
 
+// procSignal is the other shape a host's signal commonly has: a type without state of its own whose pointer-receiver method
+// reads process-wide state, held as a nil pointer.  It is a valid, non-nil Signal; runs alternate between the two shapes.
+type procSignal struct{}
+
+var procSignalObs *runObs
+
+func (*procSignal) ExitSignal() bool { return procSignalObs.ExitSignal() }
+
+func signalFor(o *runObs, fireAt int) plruntime.Signal {
+	if fireAt%2 == 1 {
+		procSignalObs = o
+		var s *procSignal
+		return s
+	}
+	return o
+}
+
 type runResult struct {
 	obs     *runObs
 	err     *errchain.PlError
@@ -434,7 +451,7 @@ func runOnce(ps *progSet, fireAt, budget int) runResult {
 			if fireAt == 0 {
 				failedEarlierRun(ps) // between the load and the run: nothing in between restores what the failed run left
 			}
-			res.err = sc.Run(o)
+			res.err = sc.Run(signalFor(o, fireAt))
 			return
 		}
 		call, check := v1Tables(o)
@@ -463,7 +480,7 @@ func runOnce(ps *progSet, fireAt, budget int) runResult {
 		if fireAt == 0 {
 			failedEarlierRun(ps) // between the load and the run: nothing in between restores what the failed run left
 		}
-		res.err = ok[ps.Main].Run(pt, o)
+		res.err = ok[ps.Main].Run(pt, signalFor(o, fireAt))
 	}()
 	select {
 	case <-done:
